@@ -49,7 +49,7 @@ def _gen_case_a(seed: int, tier: str, index: int) -> Dict[str, Any]:
                         [4, 6, 2, 2, 2, 1, 1, 1, 0.5, 2, 1.5, 2.5])[0]
         plan.append({"op": k, "a": rng.getrandbits(30), "b": rng.getrandbits(30), "n": rng.choice([1, 1, 2, 3, 6]), "gap": rng.choice([0.0, 0.05, 0.4, 1.5])})
         if k == "reentrant":
-            plan[-1]["action"] = rng.choice(["unwatch_all", "unwatch_self", "unwatch_next"])
+            plan[-1]["action"] = rng.choice(["unwatch_all", "unwatch_self", "unwatch_next", "swap_next"])
     cfg = {"profile": profile, "net": net, "loop": {"cost_small_p": 0.1, "cost_small_max": 0.002}, "tables": tables,
            "snapshot": snaps[(index // len(PROFILES)) % len(snaps)].split("/")[-1]}
     return {"property": PROP, "world": "A", "seed": seed, "cfg": cfg, "plan": plan}
@@ -246,7 +246,7 @@ ASSUMPTIONS = [
     "for temperature items 'changed' means the stored word changed; the passed values are only required to differ",
     "coverage of update geometries is measured (probe table), not asserted",
 ]
-PROBES = ["temperature_creeps_by_a_raw_unit", "temperature_unit_flipped", "refresh_judged_as_one_update", "observer_blocked_in_callback", "unwatch_from_client_thread", "unwatch_all_from_client_thread", "registration_changed_during_an_update", "several_observers_on_one_item", "reentrant_unwatch_all", "reentrant_unwatch_self", "reentrant_unwatch_next", "update_aimed_at_item", "straddling_update_notified", "silent_although_bytes_changed", "duplicate_update", "a_b_a", "watched_twice", "unwatched", "unwatch_all"]
+PROBES = ["temperature_creeps_by_a_raw_unit", "temperature_unit_flipped", "refresh_judged_as_one_update", "observer_blocked_in_callback", "unwatch_from_client_thread", "unwatch_all_from_client_thread", "registration_changed_during_an_update", "several_observers_on_one_item", "reentrant_unwatch_all", "reentrant_unwatch_self", "reentrant_unwatch_next", "reentrant_swap_next", "update_aimed_at_item", "straddling_update_notified", "silent_although_bytes_changed", "duplicate_update", "a_b_a", "watched_twice", "unwatched", "unwatch_all"]
 N_QUICK = 1020
 
 
